@@ -4,7 +4,9 @@ prop=$1; patch=$(realpath $2); tier=${3:-quick}
 cd /repo || exit 2
 if [ -n "$(git status --porcelain --untracked-files=no)" ]; then echo "repo dirty"; exit 2; fi
 git apply "$patch" || { echo "patch does not apply"; git reset -q --hard HEAD; exit 2; }
+cp /verif/evidence/$prop.json /var/tmp/evidence_$prop.bak 2>/dev/null
 cd /verif && ./check $prop --tier $tier > /tmp/seeded_$prop.out 2>&1; rc=$?
+cp /var/tmp/evidence_$prop.bak /verif/evidence/$prop.json 2>/dev/null
 grep -E "^(VIOLATION|KNOWN-FINDING|C[0-9]+ )" /tmp/seeded_$prop.out | cut -c1-300 | head -12
 echo "exit=$rc"
 git -C /repo checkout -- . 
